@@ -341,7 +341,7 @@ Proof.
     + reflexivity.
     + rewrite forallb_app, Hpre. now apply post_ok_dl.
   - cbn [forallb] in Hes. apply andb_prop in Hes. destruct Hes as [He Hr].
-    rewrite items_fuel_S. cbn zeta.
+    rewrite items_fuel_S. cbn zeta. cbn [map].
     destruct (elem_text_first e) as [c [t [Ht Hc]]].
     set (rest := match r with [] => post | _ => 44 :: el_dl e ++ render r ++ post end).
     assert (Hshape : pre ++ render (e :: r) ++ post = pre ++ elem_text e ++ el_ws e ++ rest).
@@ -369,4 +369,310 @@ Proof.
       change (44 :: el_dl e ++ render (e2 :: r2) ++ post) with ((44 :: el_dl e) ++ render (e2 :: r2) ++ post).
       rewrite (IH f' (44 :: el_dl e) post Hr Hdl Hpost); [reflexivity|].
       cbn [app length] in *. lia.
+Qed.
+
+Lemma is_dl_no_nul l : forallb is_dl l = true -> no_nul l = true.
+Proof. unfold no_nul. intros H. rewrite forallb_forall in *. intros c Hc. specialize (H c Hc). unfold is_dl, is_ows in H. lia. Qed.
+Lemma is_ows_no_nul l : forallb is_ows l = true -> no_nul l = true.
+Proof. unfold no_nul. intros H. rewrite forallb_forall in *. intros c Hc. specialize (H c Hc). unfold is_ows in H. lia. Qed.
+Lemma etagc_no_nul l : forallb etagc_nb l = true -> no_nul l = true.
+Proof. unfold no_nul. intros H. rewrite forallb_forall in *. intros c Hc. specialize (H c Hc). unfold etagc_nb in H. lia. Qed.
+Lemma no_nul_app a b : no_nul (a ++ b) = no_nul a && no_nul b.
+Proof. apply forallb_app. Qed.
+
+Lemma elem_text_no_nul e : elem_ok e = true -> no_nul (elem_text e) = true.
+Proof.
+  intros He. unfold elem_ok in He. apply andb_prop in He. destruct He as [He _]. apply andb_prop in He. destruct He as [Hm _].
+  unfold elem_text. destruct (el_star e); [reflexivity|]. unfold render_tag.
+  rewrite no_nul_app. change (no_nul (34 :: el_mid e ++ [34])) with (no_nul (el_mid e ++ [34])).
+  rewrite no_nul_app, (etagc_no_nul _ Hm). destruct (el_weak e); reflexivity.
+Qed.
+Lemma render_no_nul es : forallb elem_ok es = true -> no_nul (render es) = true.
+Proof.
+  induction es as [|e r IH]; intros H; [reflexivity|].
+  cbn [forallb] in H. apply andb_prop in H. destruct H as [He Hr]. cbn [render].
+  rewrite !no_nul_app, (elem_text_no_nul e He).
+  pose proof He as He'. unfold elem_ok in He'. apply andb_prop in He'. destruct He' as [He' Hdl]. apply andb_prop in He'. destruct He' as [_ Hws].
+  rewrite (is_ows_no_nul _ Hws). destruct r as [|e2 r2]; [reflexivity|].
+  change (no_nul (44 :: el_dl e ++ render (e2 :: r2))) with (no_nul (el_dl e ++ render (e2 :: r2))).
+  now rewrite no_nul_app, (is_dl_no_nul _ Hdl), (IH Hr).
+Qed.
+
+(* Squid's reading of a rendered list is the list of its elements *)
+Theorem list_items_render es pre post :
+  forallb elem_ok es = true -> forallb is_dl pre = true -> post_ok post = true ->
+  list_items 44 (pre ++ render es ++ post) = map elem_text es.
+Proof.
+  intros Hes Hpre Hpost. unfold list_items.
+  assert (Hn : no_nul (pre ++ render es ++ post) = true).
+  { rewrite !no_nul_app, (is_dl_no_nul _ Hpre), (render_no_nul _ Hes), (is_dl_no_nul _ (post_ok_dl _ Hpost)). reflexivity. }
+  rewrite (c_str_no_nul _ Hn). apply items_render; auto.
+Qed.
+
+(* the RFC 7232 statement: does this listed element match the selected representation's entity-tag *)
+Definition elem_matches (allow_weak : bool) (rep : etag) (e : elem) : bool :=
+  el_star e ||
+  (list_eqb (et_str rep) (34 :: el_mid e ++ [34]) && (allow_weak || (negb (et_weak rep) && negb (el_weak e)))).
+
+Lemma item_matches_elem w rep e : elem_ok e = true -> item_matches w rep (elem_text e) = elem_matches w rep e.
+Proof.
+  intros He. unfold item_matches, elem_matches, elem_text. destruct (el_star e); [reflexivity|]. cbn [orb].
+  assert (Hm : no_nul (el_mid e) = true).
+  { unfold elem_ok in He. apply andb_prop in He. destruct He as [He _]. apply andb_prop in He. destruct He as [Hm _]. now apply etagc_no_nul. }
+  assert (Hns : list_eqb (render_tag (el_weak e) (el_mid e)) asterisk = false).
+  { unfold render_tag, asterisk. destruct (el_weak e); reflexivity. }
+  rewrite Hns, (etag_parse_render _ _ Hm).
+  unfold etag_weak_eq, etag_strong_eq, etag_strings_match. cbn [et_weak et_str].
+  destruct w; cbn [orb]; [now rewrite andb_true_r|].
+  destruct (list_eqb (et_str rep) (34 :: el_mid e ++ [34])); destruct (et_weak rep); destruct (el_weak e); reflexivity.
+Qed.
+
+(* hasOneOfEtags on a well-formed list = "some listed element matches" (entity has a valid ETag) *)
+Theorem has_one_of_render es pre post rep w :
+  forallb elem_ok es = true -> forallb is_dl pre = true -> post_ok post = true ->
+  has_one_of_etags (Some rep) (pre ++ render es ++ post) w = existsb (elem_matches w rep) es.
+Proof.
+  intros Hes Hpre Hpost. unfold has_one_of_etags. rewrite (list_items_render es pre post Hes Hpre Hpost).
+  induction es as [|e r IH]; [reflexivity|].
+  cbn [forallb] in Hes. apply andb_prop in Hes. destruct Hes as [He Hr].
+  cbn [map existsb]. now rewrite (item_matches_elem w rep e He), (IH Hr).
+Qed.
+
+Lemma ci_star_elem e : ci_eqb asterisk (elem_text e) = el_star e.
+Proof.
+  unfold elem_text, asterisk. destruct (el_star e); [reflexivity|]. unfold render_tag. destruct (el_weak e); reflexivity.
+Qed.
+(* ... and when the entity has no (valid) ETag only `*` matches *)
+Theorem has_one_of_render_none es pre post w :
+  forallb elem_ok es = true -> forallb is_dl pre = true -> post_ok post = true ->
+  has_one_of_etags None (pre ++ render es ++ post) w = existsb el_star es.
+Proof.
+  intros Hes Hpre Hpost. unfold has_one_of_etags, is_member. rewrite (list_items_render es pre post Hes Hpre Hpost).
+  clear Hes. induction es as [|e r IH]; [reflexivity|]. cbn [map existsb]. now rewrite ci_star_elem, IH.
+Qed.
+
+(* full RFC 7232 etagc: %x21 / %x23-7E / obs-text — the backslash included *)
+Definition etagc_rfc (c : N) : bool := (c =? 33) || ((35 <=? c) && (c <=? 126)) || ((128 <=? c) && (c <=? 255)).
+Definition elem_ok_rfc (e : elem) : bool :=
+  forallb etagc_rfc (el_mid e) && forallb is_ows (el_ws e) && forallb is_dl (el_dl e).
+Lemma elem_ok_is_rfc_without_backslash e :
+  elem_ok_rfc e = true -> forallb (fun c => negb (c =? 92)) (el_mid e) = true -> elem_ok e = true.
+Proof.
+  unfold elem_ok_rfc, elem_ok. intros H Hb. apply andb_prop in H. destruct H as [H Hd]. apply andb_prop in H. destruct H as [Hm Hw].
+  rewrite Hw, Hd, !andb_true_r. rewrite forallb_forall in *. intros c Hc. specialize (Hm c Hc). specialize (Hb c Hc).
+  unfold etagc_rfc in Hm. unfold etagc_nb. lia.
+Qed.
+
+(* witness: If-Match: "a\", "v1" against the entity tag "v1" *)
+Definition wit_es : list elem :=
+  [ {| el_star := false; el_weak := false; el_mid := [97; 92]; el_ws := []; el_dl := [32] |};
+    {| el_star := false; el_weak := false; el_mid := [118; 49]; el_ws := []; el_dl := [] |} ].
+Definition wit_rep : etag := {| et_weak := false; et_str := [34; 118; 49; 34] |}.
+Theorem list_walk_refuted :
+  exists es rep, forallb elem_ok_rfc es = true /\
+    existsb (elem_matches false rep) es = true /\ has_one_of_etags (Some rep) (render es) false = false.
+Proof. exists wit_es, wit_rep. vm_compute. repeat split. Qed.
+
+(* the same witness through processConditional: 412 although a listed tag strongly matches *)
+Definition wit_req : creq :=
+  {| rq_get_or_head := true; rq_ranged := false;
+     rq_hdrs := [ {| h_name := map N.of_nat [73;102;45;77;97;116;99;104]%nat; h_value := render wit_es |} ] |}.
+Definition wit_entry : centry :=
+  {| en_status := 200; en_hdrs := [ {| h_name := map N.of_nat [69;84;97;103]%nat; h_value := [34; 118; 49; 34] |} ];
+     en_timestamp := 1000%Z |}.
+Theorem if_match_412_refuted :
+  forall pd, get_etag (en_hdrs wit_entry) = Some wit_rep /\
+    get_list ID_IF_MATCH (rq_hdrs wit_req) = render wit_es /\
+    existsb (elem_matches false wit_rep) wit_es = true /\
+    hit_verdict pd wit_req wit_entry = V412.
+Proof. intros pd. vm_compute. repeat split. Qed.
+
+(* the decision on requests whose If-Match / If-None-Match fields are well-formed lists *)
+Definition one_field (name : list nat) (v : bytes) : hdr := {| h_name := map N.of_nat name; h_value := v |}.
+
+(* ================= 5. HttpHeader::update / needUpdate: the 304 merge ================= *)
+Lemma filter_filter {A} (p q : A -> bool) l : filter p (filter q l) = filter (fun x => q x && p x) l.
+Proof.
+  induction l as [|x l IH]; [reflexivity|]. cbn [filter]. destruct (q x) eqn:Eq; cbn [filter andb]; [|exact IH].
+  destruct (p x); now rewrite IH.
+Qed.
+Lemma filter_ext_all {A} (p q : A -> bool) l : (forall x, p x = q x) -> filter p l = filter q l.
+Proof. intros H. induction l as [|x l IH]; [reflexivity|]. cbn [filter]. now rewrite H, IH. Qed.
+Lemma filter_true {A} (l : list A) : filter (fun _ => true) l = l.
+Proof. induction l as [|x l IH]; [reflexivity|]. cbn [filter]. now rewrite IH. Qed.
+Lemma existsb_false_all {A} (f : A -> bool) l : existsb f l = false -> forall x, In x l -> f x = false.
+Proof.
+  induction l as [|y l IH]; intros H x Hx; [destruct Hx|]. cbn [existsb] in H. apply orb_false_iff in H. destruct H as [Hy Hl].
+  destruct Hx as [->|Hx]; [exact Hy|now apply IH].
+Qed.
+
+(* the sequential deletions of the first loop amount to one filter *)
+Lemma update_delete_closed fresh : forall cur,
+  update_delete fresh cur = filter (fun h => negb (existsb (fun e => deleted_by e h) (update_added fresh))) cur.
+Proof.
+  induction fresh as [|e r IH]; intros cur.
+  - cbn [update_delete update_added filter existsb negb]. now rewrite filter_true.
+  - cbn [update_delete]. unfold update_added. cbn [filter]. fold (update_added r).
+    destruct (skip_update_header (hdr_id e)); cbn [negb]; [apply IH|].
+    rewrite IH, filter_filter. apply filter_ext_all. intros h. cbn [existsb]. now rewrite negb_orb.
+Qed.
+
+(* caseless name comparison is an equivalence, and ids are a function of the caseless name *)
+Lemma ci_eqb_refl a : ci_eqb a a = true.
+Proof. induction a as [|x a IH]; [reflexivity|]. cbn [ci_eqb]. now rewrite N.eqb_refl, IH. Qed.
+Lemma ci_eqb_sym a b : ci_eqb a b = ci_eqb b a.
+Proof.
+  destruct (ci_eqb a b) eqn:E1; destruct (ci_eqb b a) eqn:E2; try reflexivity.
+  - pose proof (ci_eqb_trans_l a b a E1) as H. rewrite ci_eqb_refl in H. congruence.
+  - pose proof (ci_eqb_trans_l b a b E2) as H. rewrite ci_eqb_refl in H. congruence.
+Qed.
+
+Fixpoint ids_unique (tbl : list (N * list N * (bool * bool * bool * bool * bool))) : bool :=
+  match tbl with
+  | [] => true
+  | (id, _, _) :: r => negb (existsb (fun row => fst (fst row) =? id) r) && ids_unique r
+  end.
+Lemma table_ids_unique : ids_unique hdr_table = true.
+Proof. vm_compute. reflexivity. Qed.
+Lemma ids_unique_name tbl : ids_unique tbl = true -> forall id n1 f1 n2 f2,
+  In (id, n1, f1) tbl -> In (id, n2, f2) tbl -> n1 = n2.
+Proof.
+  induction tbl as [|[[i n] f] r IH]; intros Hu id n1 f1 n2 f2 H1 H2; [destruct H1|].
+  cbn [ids_unique] in Hu. apply andb_prop in Hu. destruct Hu as [Hne Hr]. apply negb_true_iff in Hne.
+  assert (Hno : forall nn ff, In (i, nn, ff) r -> False).
+  { intros nn ff Hin. pose proof (existsb_false_all _ _ Hne (i, nn, ff) Hin) as Hx. cbn [fst] in Hx. now rewrite N.eqb_refl in Hx. }
+  destruct H1 as [E1|H1]; destruct H2 as [E2|H2].
+  - congruence.
+  - injection E1 as -> -> ->. exfalso. eapply Hno; eauto.
+  - injection E2 as -> -> ->. exfalso. eapply Hno; eauto.
+  - eapply IH; eauto.
+Qed.
+Lemma lookup_id_hit tbl name : lookup_id tbl name <> hdr_OTHER ->
+  exists nm fl, In (lookup_id tbl name, nm, fl) tbl /\ ci_eqb name nm = true.
+Proof.
+  induction tbl as [|[[i n] f] r IH]; cbn [lookup_id]; intros H; [contradiction|].
+  destruct (ci_eqb name n) eqn:E.
+  - exists n, f. split; [now left|exact E].
+  - destruct (IH H) as [nm [fl [Hin Hc]]]. exists nm, fl. split; [now right|exact Hc].
+Qed.
+Lemma same_id_same_name a b :
+  hdr_id a = hdr_id b -> hdr_id a <> hdr_OTHER -> ci_eqb (h_name a) (h_name b) = true.
+Proof.
+  unfold hdr_id. intros Heq Hne.
+  destruct (lookup_id_hit hdr_table (h_name a) Hne) as [n1 [f1 [Hin1 Hc1]]].
+  assert (Hne2 : lookup_id hdr_table (h_name b) <> hdr_OTHER) by congruence.
+  destruct (lookup_id_hit hdr_table (h_name b) Hne2) as [n2 [f2 [Hin2 Hc2]]].
+  rewrite <- Heq in Hin2. pose proof (ids_unique_name _ table_ids_unique _ _ _ _ _ Hin1 Hin2) as ->.
+  rewrite (ci_eqb_trans_l _ _ (h_name b) Hc1). now rewrite ci_eqb_sym.
+Qed.
+(* delById / delByName delete exactly the stored fields with the (caseless) name of the 304's field *)
+Lemma deleted_by_name e h : deleted_by e h = ci_eqb (h_name h) (h_name e).
+Proof.
+  unfold deleted_by. destruct (hdr_id e =? hdr_OTHER) eqn:Eo; cbn [negb]; [reflexivity|].
+  apply N.eqb_neq in Eo.
+  destruct (ci_eqb (h_name h) (h_name e)) eqn:Ec.
+  - apply N.eqb_eq. unfold hdr_id. now apply lookup_id_ci.
+  - destruct (hdr_id h =? hdr_id e) eqn:Ei; [|reflexivity]. apply N.eqb_eq in Ei.
+    assert (Hne : hdr_id h <> hdr_OTHER) by congruence.
+    pose proof (same_id_same_name h e Ei Hne). congruence.
+Qed.
+
+Definition named_in (hs : list hdr) (h : hdr) : bool := existsb (fun e => ci_eqb (h_name h) (h_name e)) hs.
+(* closed form of HttpHeader::update + compact: stored fields whose name no (non-Vary) 304 field bears, in their
+   order, followed by the 304's non-Vary fields in their order *)
+Theorem hdr_update_closed old fresh :
+  hdr_update old fresh = filter (fun h => negb (named_in (update_added fresh) h)) old ++ update_added fresh.
+Proof.
+  unfold hdr_update. rewrite update_delete_closed. f_equal. apply filter_ext_all. intros h. unfold named_in. f_equal.
+  induction (update_added fresh) as [|e r IH]; [reflexivity|]. cbn [existsb]. now rewrite deleted_by_name, IH.
+Qed.
+
+(* "old (+) new by name": the fields of any given name after the update are the 304's if it has (non-Vary) fields of
+   that name, else the stored ones — as lists, order and multiplicity included *)
+Definition fields_named (n : bytes) (hs : list hdr) : list hdr := filter (fun h => ci_eqb (h_name h) n) hs.
+Lemma filter_none {A} (p : A -> bool) l : (forall x, In x l -> p x = false) -> filter p l = [].
+Proof.
+  induction l as [|x l IH]; intros H; [reflexivity|]. cbn [filter]. rewrite (H x (or_introl eq_refl)). apply IH.
+  intros y Hy. apply H. now right.
+Qed.
+Theorem merge_by_name old fresh n :
+  fields_named n (hdr_update old fresh) =
+  if existsb (fun e => ci_eqb (h_name e) n) (update_added fresh)
+  then fields_named n (update_added fresh) else fields_named n old.
+Proof.
+  rewrite hdr_update_closed. unfold fields_named. rewrite filter_app, filter_filter.
+  destruct (existsb (fun e => ci_eqb (h_name e) n) (update_added fresh)) eqn:Ex.
+  - rewrite filter_none; [reflexivity|]. intros h _.
+    destruct (ci_eqb (h_name h) n) eqn:Eh; [|now rewrite andb_false_r].
+    rewrite andb_true_r. apply negb_false_iff. unfold named_in.
+    apply existsb_exists in Ex. destruct Ex as [e0 [Hin He0]]. apply existsb_exists. exists e0. split; [exact Hin|].
+    rewrite (ci_eqb_trans_l _ _ (h_name e0) Eh). now rewrite ci_eqb_sym.
+  - rewrite (filter_none _ (update_added fresh)).
+    2:{ intros e He. exact (existsb_false_all _ _ Ex e He). }
+    rewrite app_nil_r. apply filter_ext_all. intros h.
+    destruct (ci_eqb (h_name h) n) eqn:Eh; [|now rewrite andb_false_r].
+    rewrite andb_true_r. apply negb_true_iff. unfold named_in.
+    destruct (existsb (fun e => ci_eqb (h_name h) (h_name e)) (update_added fresh)) eqn:Ey; [|reflexivity].
+    apply existsb_exists in Ey. destruct Ey as [e0 [Hin He0]].
+    pose proof (existsb_false_all _ _ Ex e0 Hin) as Hf. cbn beta in Hf.
+    rewrite <- (ci_eqb_trans_l _ _ n He0) in Hf. congruence.
+Qed.
+
+(* needUpdate = false means the stored (joined) value of every non-Vary field name of the 304 already equals the 304's *)
+Theorem need_update_false old fresh :
+  need_update old fresh = false ->
+  forall e, In e (update_added fresh) -> get_named old (h_name e) = Some (get_by_name fresh (h_name e)).
+Proof.
+  intros H e He. unfold update_added in He. apply filter_In in He. destruct He as [Hin Hs].
+  pose proof (existsb_false_all _ _ H e Hin) as Hf. cbn beta in Hf. rewrite Hs in Hf. cbn [andb] in Hf.
+  destruct (get_named old (h_name e)) as [v|]; [|discriminate].
+  apply negb_false_iff in Hf. apply leqb_eq in Hf. now subst v.
+Qed.
+
+(* the revalidation as a whole: body untouched; header either unchanged (nothing new) or merged by name *)
+Theorem revalidation_merge o fresh :
+  let o' := revalidated_304 o fresh in
+  ob_body o' = ob_body o /\
+  (need_update (ob_hdrs o) fresh = true ->
+     forall n, fields_named n (ob_hdrs o') =
+               if existsb (fun e => ci_eqb (h_name e) n) (update_added fresh)
+               then fields_named n (update_added fresh) else fields_named n (ob_hdrs o)) /\
+  (need_update (ob_hdrs o) fresh = false ->
+     ob_hdrs o' = ob_hdrs o /\
+     forall e, In e (update_added fresh) -> get_named (ob_hdrs o) (h_name e) = Some (get_by_name fresh (h_name e))).
+Proof.
+  cbn zeta. unfold revalidated_304, update_on_not_modified. cbn [ob_body ob_hdrs]. split; [reflexivity|]. split.
+  - intros ->. intros n. apply merge_by_name.
+  - intros Hn. rewrite Hn. split; [reflexivity|]. now apply need_update_false.
+Qed.
+
+(* Vary is never taken from a 304 (HttpHeader::skipUpdateHeader) *)
+Theorem vary_not_updated old fresh h :
+  In h (hdr_update old fresh) -> hdr_id h = ID_VARY -> In h old.
+Proof.
+  rewrite hdr_update_closed. intros Hin Hv. apply in_app_or in Hin. destruct Hin as [Hin|Hin].
+  - apply filter_In in Hin. tauto.
+  - unfold update_added in Hin. apply filter_In in Hin. destruct Hin as [_ Hs]. unfold skip_update_header in Hs.
+    rewrite Hv, N.eqb_refl in Hs. discriminate.
+Qed.
+
+(* handleIMSReply: after an origin 304 the client gets a 304 only if it sent a usable If-Modified-Since that covers
+   the (updated) entity; otherwise the (updated) stored response. The cache ends up with the merged header. *)
+Theorem ims_reply_304 pd r old fresh ts fail :
+  let merged := update_on_not_modified (en_hdrs old) fresh in
+  let e' := {| en_status := en_status old; en_hdrs := merged; en_timestamp := ts |} in
+  snd (handle_ims_reply pd r old 304 fresh ts fail) = merged /\
+  (fst (handle_ims_reply pd r old 304 fresh ts fail) = RForward304 <->
+     (0 < rq_ims pd r)%Z /\ not_modified_since pd e' (rq_ims pd r)) /\
+  (fst (handle_ims_reply pd r old 304 fresh ts fail) <> RForward304 ->
+     fst (handle_ims_reply pd r old 304 fresh ts fail) = ROld).
+Proof.
+  cbn zeta. unfold handle_ims_reply. replace (304 =? 304) with true by reflexivity. unfold ims_flag.
+  set (e' := {| en_status := en_status old; en_hdrs := update_on_not_modified (en_hdrs old) fresh; en_timestamp := ts |}).
+  pose proof (modified_since_false pd e' (rq_ims pd r)) as Hms.
+  destruct (0 <? rq_ims pd r)%Z eqn:Ei; destruct (modified_since pd e' (rq_ims pd r)) eqn:Em; cbn [andb negb fst snd];
+    (split; [reflexivity|]); split; try (split; intros; try discriminate); try tauto; try lia; try congruence.
+  all: try (destruct H as [H1 H2]; apply Hms in H2; discriminate).
+  all: try (split; [lia| now apply Hms]).
+  all: try (intros [H1 H2]; lia).
 Qed.
